@@ -55,6 +55,7 @@ type gen struct {
 	cur      *txn
 	counts   map[string]int
 	nextLeaf int64
+	noAssign bool // the receiver being rendered is not an assignment target (temporary, cast, ...)
 	hugeLeft int // how many more non-inlinable Int leaves this program may introduce
 }
 
@@ -161,10 +162,20 @@ func (g *gen) expr(t *ty) gexpr {
 	case r < 6 || t.k == "int":
 		return g.readOrLit(t)
 	case r < 8 && t.idFun != "":
-		e := g.readOrLit(t)
-		g.count("expr:call")
-		return gexpr{cad: "C05." + t.idFun + "(" + e.cad + ")", coq: "ECallId (" + e.part + ")", v: e.v}
+		return g.callExpr(t)
 	}
+	return g.wrapExpr(t)
+}
+
+// id(read): argument passing + return
+func (g *gen) callExpr(t *ty) gexpr {
+	e := g.readOrLit(t)
+	g.count("expr:call")
+	return gexpr{cad: "C05." + t.idFun + "(" + e.cad + ")", coq: "ECallId (" + e.part + ")", v: e.v}
+}
+
+// container literal / struct constructor whose parts are reads or literals
+func (g *gen) wrapExpr(t *ty) gexpr {
 	g.count("expr:wrap-" + t.k)
 	v := &val{t: t}
 	var cads, parts []string
@@ -290,7 +301,7 @@ func (g *gen) containerOp(recv string, c *val) (cad, coq string, ok bool) {
 	case "arr":
 		n := len(c.kids)
 		w := g.rng.Intn(10)
-		if strings.Contains(recv, "!") && w >= 4 && w < 7 {
+		if (g.noAssign || strings.Contains(recv, "!")) && w >= 4 && w < 7 {
 			w = 0 // an element of a force-unwrapped dictionary value is not an assignment target
 		}
 		switch {
@@ -330,7 +341,7 @@ func (g *gen) containerOp(recv string, c *val) (cad, coq string, ok bool) {
 		e := g.expr(c.t.elem)
 		c.dictSet(k, e.v)
 		g.count("op:dict-set")
-		if strings.Contains(recv, "!") || g.rng.Chance(1, 3) {
+		if g.noAssign || strings.Contains(recv, "!") || g.rng.Chance(1, 3) {
 			return fmt.Sprintf("%s.insert(key: %d, %s)", recv, k, e.cad), fmt.Sprintf("ESet %d (%s)", k, e.coq), true
 		}
 		return fmt.Sprintf("%s[%d] = %s", recv, k, e.cad), fmt.Sprintf("ESet %d (%s)", k, e.coq), true
@@ -358,7 +369,21 @@ func (g *gen) stMutateVar() bool {
 		}
 	}
 	l := cands[g.rng.Intn(len(cands))]
-	cad, op, ok := g.containerOp(fmt.Sprintf("v%d%s", x.idx, l.suffix), l.v)
+	recv := fmt.Sprintf("v%d%s", x.idx, l.suffix)
+	// expressions that pass the container through WITHOUT a transfer (static cast, conditional):
+	// the mutation still acts on the variable's own container
+	switch g.rng.Intn(12) {
+	case 0:
+		recv = "(" + recv + " as " + l.v.t.cad() + ")"
+		g.noAssign = true
+		g.count("receiver:cast")
+	case 1:
+		recv = "(true ? " + recv + " : " + recv + ")"
+		g.noAssign = true
+		g.count("receiver:conditional")
+	}
+	cad, op, ok := g.containerOp(recv, l.v)
+	g.noAssign = false
 	if !ok {
 		return false
 	}
@@ -429,7 +454,10 @@ func (g *gen) stMutateRef() bool {
 	if len(g.refs) == 0 {
 		return false
 	}
-	r := g.refs[g.rng.Intn(len(g.refs))]
+	return g.mutateThrough(g.refs[g.rng.Intn(len(g.refs))])
+}
+
+func (g *gen) mutateThrough(r *gref) bool {
 	root := fmt.Sprintf("RRef %d", r.idx)
 	if r.slot != nil {
 		root = fmt.Sprintf("RKey (KSlot %d)", r.slot.idx)
@@ -466,6 +494,91 @@ func (g *gen) stMutateRef() bool {
 	} else {
 		g.count("stmt:mutate-ref")
 	}
+	return true
+}
+
+// A transfer result used as an unbound TEMPORARY: the expression (storage.copy, a function
+// result, a container literal / constructor of variables) is mutated in place, at some depth, by
+// a method call on the expression itself, or through a reference taken directly to it.  In the
+// model the temporary is an anonymous place (a hidden variable that no program text can read);
+// nothing else may change - in particular not the stored value or the variables it was built from.
+func (g *gen) stTempMutate() bool {
+	var e gexpr
+	form := ""
+	switch w := g.rng.Intn(10); {
+	case w < 5:
+		var full []*gslot
+		for _, s := range g.slots {
+			if s.v != nil {
+				full = append(full, s)
+			}
+		}
+		if len(full) == 0 {
+			return false
+		}
+		s := full[g.rng.Intn(len(full))]
+		e = gexpr{cad: fmt.Sprintf("acct.storage.copy<%s>(from: /storage/s%d)!", s.t.cad(), s.idx),
+			coq: fmt.Sprintf("EPart (PRead (RKey (KSlot %d)) [])", s.idx), v: s.v.clone()}
+		form = "storage-copy"
+	case w < 8:
+		if len(g.vars) == 0 {
+			return false
+		}
+		x := g.vars[g.rng.Intn(len(g.vars))]
+		var cands []loc
+		for _, l := range locs(x.v, 3) {
+			if l.v.t.container() && l.v.t.idFun != "" {
+				cands = append(cands, l)
+			}
+		}
+		l := cands[g.rng.Intn(len(cands))]
+		e = gexpr{cad: fmt.Sprintf("C05.%s(v%d%s)", l.v.t.idFun, x.idx, l.suffix),
+			coq: fmt.Sprintf("ECallId (PRead (RKey (KVar %d)) %s)", x.idx, coqPath(l.steps)), v: l.v.clone()}
+		form = "call-result"
+	default:
+		e = g.wrapExpr(universe[g.rng.Intn(len(universe))])
+		if e.v.t.k != "struct" {
+			// a statement must not start with [ or {, and empty literals need a type
+			e.cad = "(" + e.cad + " as " + e.v.t.cad() + ")"
+		}
+		form = "literal"
+	}
+	hidden := &gvar{idx: g.nvar, t: e.v.t, v: e.v} // not in g.vars: never read, never logged
+	g.nvar++
+	g.cur.stmts = append(g.cur.stmts, fmt.Sprintf("SAssign (KVar %d) (%s)", hidden.idx, e.coq))
+	var cands []loc
+	for _, l := range locs(e.v, 2) {
+		if l.v.t.container() {
+			cands = append(cands, l)
+		}
+	}
+	l := cands[g.rng.Intn(len(cands))]
+	if g.rng.Chance(1, 3) {
+		// reference taken directly to the temporary, then mutations through it
+		if strings.HasSuffix(l.suffix, "!") {
+			l = cands[0]
+		}
+		r := &gref{idx: g.nref, t: l.v.t, target: l.v, owner: hidden}
+		g.nref++
+		refType := "auth(Mutate) &" + l.v.t.cad()
+		if l.v.t.k == "struct" {
+			refType = "&" + l.v.t.cad()
+		}
+		g.refs = append(g.refs, r)
+		g.emit(fmt.Sprintf("let r%d = &%s%s as %s", r.idx, e.cad, l.suffix, refType),
+			fmt.Sprintf("STakeRef %d (RKey (KVar %d)) %s", r.idx, hidden.idx, coqPath(l.steps)))
+		g.count("stmt:temporary-ref:" + form)
+		return g.mutateThrough(r)
+	}
+	g.noAssign = true
+	cad, op, ok := g.containerOp(e.cad+l.suffix, l.v)
+	g.noAssign = false
+	if !ok {
+		return false
+	}
+	g.emit(cad, fmt.Sprintf("SMutate (RKey (KVar %d)) %s (%s)", hidden.idx, coqPath(l.steps), op))
+	g.pruneRefs()
+	g.count("stmt:temporary-mutated:" + form)
 	return true
 }
 
@@ -652,6 +765,8 @@ func (g *gen) transaction(nStmts int) *txn {
 			ok = g.stCopyOut()
 		case w < 28:
 			ok = g.stReassign()
+		case w < 40:
+			ok = g.stTempMutate()
 		case w < 52:
 			ok = g.stMutateVar()
 		case w < 60:
